@@ -295,7 +295,13 @@ where
         Ok(sol) => {
             let (t, y, t_events, y_events, dense_raw) = default_solout.into_payload();
             let continuous_sol = if options.dense_output {
-                Some(ContinuousOutput::from_segments(options.method, n_states, dense_raw))
+                if dense_raw.iter().all(|(_, _, h)| *h == 0.0) {
+                    // No accepted step (the run ended before its first one): the solution is the
+                    // initial sample, as for a zero-length interval
+                    Some(ContinuousOutput::constant(options.method, x0, y0))
+                } else {
+                    Some(ContinuousOutput::from_segments(options.method, n_states, dense_raw))
+                }
             } else {
                 None
             };
